@@ -53,7 +53,9 @@ def announce_watchdog(
     self: 'API', reactor: 'Reactor', service: str, peers: list[str], command: str, use_json: bool, action: str = ''
 ) -> bool:
     async def callback(name: str) -> None:
-        for neighbor_name in reactor.configuration.neighbors.keys():
+        # the neighbors the command selects (all of them without a selector): every configured neighbor was walked
+        # whatever `peer <selector>` said, and whichever neighbors the process is bound to
+        for neighbor_name in peers if peers else list(reactor.configuration.neighbors.keys()):
             neighbor = reactor.configuration.neighbors.get(neighbor_name, None)
             if not neighbor:
                 continue
@@ -71,7 +73,9 @@ def withdraw_watchdog(
     self: 'API', reactor: 'Reactor', service: str, peers: list[str], command: str, use_json: bool, action: str = ''
 ) -> bool:
     async def callback(name: str) -> None:
-        for neighbor_name in reactor.configuration.neighbors.keys():
+        # the neighbors the command selects (all of them without a selector): every configured neighbor was walked
+        # whatever `peer <selector>` said, and whichever neighbors the process is bound to
+        for neighbor_name in peers if peers else list(reactor.configuration.neighbors.keys()):
             neighbor = reactor.configuration.neighbors.get(neighbor_name, None)
             if not neighbor:
                 continue
